@@ -249,7 +249,8 @@ def run_e2e(case, acc, wd):
             acc.skip('e2e: run finished before the signal')
             return False, classes
         if r.timed_out:
-            acc.violation('e2e-sigint-ignored', 'ddSMT still running 60 s after SIGINT', case)
+            acc.violation('e2e-sigint-ignored', 'ddSMT still running 60 s after SIGINT; processes: '
+                          f'{getattr(r, "survivors_at_timeout", None)}; stderr tail: {r.stderr[-400:]!r}', case)
             return False, classes
         nt = r.out_text is not None
         if r.out_text is not None:
